@@ -206,3 +206,15 @@ def path_graph(n, w=1):
 def private_graph(n, w=1):
     """touches only the vertices 0, n-3, n-2, n-1"""
     return (n, [(0, n - 3, w), (n - 3, n - 2, w), (n - 2, n - 1, w)])
+
+
+def history_graphs(rng, ncalls, maxn=6):
+    """one (unweighted) graph per call of a long single-thread history (see history_plan): tiny structural graphs, a cycle on fresh vertices at the
+    wrap call numbers, a 4-cycle on a private vertex range at the private call numbers"""
+    fresh, private = history_plan(ncalls)
+    out = []
+    for i in range(1, ncalls + 1):
+        if i in fresh: n = fresh[i]; out.append((n, [(j, (j + 1) % n, 1) for j in range(n)]))
+        elif i in private: n = private[i]; out.append((n, [(0, n - 3, 1), (n - 3, n - 2, 1), (n - 2, n - 1, 1), (n - 1, 0, 1)]))
+        else: out.append(structural(rng, maxn))
+    return out
